@@ -17,6 +17,7 @@ structure MState (α : Type) where
   dummy       : Nat                  -- `_dummy_param_counter`
   initialized : Bool
   rxns        : List (RxnDef × String)   -- stoichiometric definition and the name of the rate parameter
+  rules       : List (String × List String) := []   -- additive rules `dest = Σ srcs` (`rule_definitions`)
   deriving Inhabited
 
 /-- a rate constant given as a parameter name or as a number. -/
@@ -30,6 +31,7 @@ inductive MOp (α : Type) where
   | setParameter (name : String) (v : α)
   | setSpecies (vals : List (String × α))
   | createMassAction (reactants products : List String) (k : KArg α)
+  | createAdditiveRule (dest : String) (srcs : List String)
   | initialize
 
 inductive MResult where
@@ -101,6 +103,13 @@ def MState.createMassAction (m : MState α) (reactants products : List String) (
 where
   addAllSpecies (m : MState α) (ss : List String) : MState α := ss.foldl MState.addSpecies m
 
+/-- `create_rule('additive', {'equation': 'dest = s1 + s2 + …'})`: `initialized = False` first; no species is added
+(the rule object's `initialize` raises `KeyError` for a name that is not a species); the rule is appended. -/
+def MState.createAdditiveRule (m : MState α) (dest : String) (srcs : List String) : Except String (MState α) :=
+  if dest ∈ m.species ∧ srcs.all (· ∈ m.species) then
+    .ok { m with rules := m.rules ++ [(dest, srcs)], initialized := false }
+  else .error "KeyError: a name in the rule is not a species"
+
 /-- `_initialize`: `check_parameters` (error when some parameter has no value), `check_species`
 (unset species default to 0), `initialized = True`. -/
 def MState.initialize (m : MState α) : Except String (MState α) :=
@@ -117,6 +126,7 @@ def MState.step (m : MState α) : MOp α → Except String (MState α)
   | .setParameter p v => m.setParameter p v
   | .setSpecies vals => .ok (m.setSpecies vals)
   | .createMassAction r p k => m.createMassAction r p k
+  | .createAdditiveRule d ss => m.createAdditiveRule d ss
   | .initialize => m.initialize
 
 /-- a history: an operation that raises leaves the model as it was (the Python call has no effect
